@@ -16,6 +16,7 @@ import vlib  # noqa: E402
 
 ENGINE_OF = {
     "C01": "lbfuzz", "C02": "lbfuzz", "C03": "lbfuzz", "C16": "lbfuzz",
+    "C04": "connmon",
 }
 
 
@@ -32,6 +33,12 @@ def setup():
         if hasattr(mod, "warm"):
             try:
                 mod.warm()
+            except vlib.BuildError as e:
+                print(e)
+                rc = 1
+        elif hasattr(mod, "build"):
+            try:
+                mod.build()
             except vlib.BuildError as e:
                 print(e)
                 rc = 1
